@@ -80,7 +80,7 @@ def r17_2_5(ctx) -> None:
         if not bcalls:
             raise AnalysisError(f"{D.short}: no inflate call found")
         first = None
-        for s in bcalls:
+        for s in sorted(bcalls, key=lambda x: (x.node.lineno, x.node.col_offset)):
             par = eng.prog.parent(s.node)
             if isinstance(par, (ast.Assign, ast.AnnAssign, ast.Return)):
                 first = first or (s, par)
@@ -102,14 +102,9 @@ def r17_2_5(ctx) -> None:
                 continue
             txt = norm(t.ast)
             reads_eof = any(isinstance(x, ast.Attribute) and x.attr == "eof" and norm(x.value) == objtxt for x in ast.walk(t.ast))
-            second = any(isinstance(x, ast.Call) and isinstance(x.func, ast.Attribute) and x.func.attr in ("decompress", "flush")
-                         and norm(x.func.value) == objtxt and x is not s.node for x in ast.walk(t.ast))
-            # a local bound to a second pull
-            for nm in names_in(t.ast):
-                for kind, dn, extra in eng.flow._defs(D).get(nm, []):
-                    if kind == "assign" and isinstance(dn, ast.Call) and isinstance(dn.func, ast.Attribute) \
-                            and dn.func.attr in ("decompress", "flush") and norm(dn.func.value) == objtxt and dn is not s.node:
-                        second = True
+            second, not_eof = _completion_facts(eng, D, t.ast, objtxt, s.node, 0)
+            if isinstance(t.ast, ast.Name) and not_eof:
+                second = True  # `x = … or not obj.eof` ; `if x: raise`
             if reads_eof:
                 # `not eof` (false edge of the atom) must only raise
                 lab = "false"
@@ -156,6 +151,25 @@ def r17_2_5(ctx) -> None:
                         ctx.check(nm.split(".")[-1] == "ExceededSizeError", "R17.2", D, node.ast, f"{D.short} :: {norm(node.ast)[:50]}",
                                   f"over-limit data is refused with {nm}, not the exceeded-size error", "raises ExceededSizeError")
     ctx.count("R17.2/5", n, 1, "returns of decompress()")
+
+
+def _completion_facts(eng, fn: FunctionInfo, e: ast.AST, objtxt: str, first_call: ast.Call, depth: int):
+    """(mentions a second pull on the object, mentions `not obj.eof`) - following local definitions"""
+    second = not_eof = False
+    for x in ast.walk(e):
+        if isinstance(x, ast.Call) and isinstance(x.func, ast.Attribute) and x.func.attr in ("decompress", "flush") \
+                and norm(x.func.value) == objtxt and x is not first_call:
+            second = True
+        if isinstance(x, ast.UnaryOp) and isinstance(x.op, ast.Not) and isinstance(x.operand, ast.Attribute) and x.operand.attr == "eof" \
+                and norm(x.operand.value) == objtxt:
+            not_eof = True
+        if isinstance(x, ast.Name) and depth < 3 and x.id not in fn.params:
+            for kind, dn, extra in eng.flow._defs(fn).get(x.id, []):
+                if kind == "assign" and isinstance(dn, ast.AST) and dn is not first_call:
+                    s2, n2 = _completion_facts(eng, fn, dn, objtxt, first_call, depth + 1)
+                    second = second or s2
+                    not_eof = not_eof or n2
+    return second, not_eof
 
 
 def _is_alias_of(eng, fn: FunctionInfo, v: ast.AST, call: ast.Call, depth: int = 0) -> bool:
